@@ -62,14 +62,22 @@ def _cyc_chunk(args):
                 for B in range(max_b + 1):
                     for fc, first in enumerate(('peak', 'trough', None)):
                         if B not in bs or fc not in firsts:
-                            out.append(0)
+                            out.extend([0] * 11)
                             continue
                         _CUR['filt'] = fneg
                         e1 = _ext_entry(sig, B, first)
                         cyc = _cyc_entry(sig, B) if first == 'peak' else {'ok': 0, 'rows': []}
                         _CUR['filt'] = fzero
                         e2 = _ext_entry(sig, B, first)
-                        out.append({'ext_neg': e1, 'ext_zero': e2, 'cyc': cyc})
+                        rows = cyc['rows']
+                        codes = []
+                        for r in rows[:3]:
+                            c = 0
+                            for x in r:
+                                c = c * ns + (x if 0 <= x < ns else 0)
+                            codes.append(c if all(0 <= x < ns for x in r) else -1)
+                        codes += [0] * (3 - len(codes))
+                        out.extend([e1['ok'], e1['pk'], e1['tr'], e2['ok'], e2['pk'], e2['tr'], cyc['ok'], len(rows)] + codes)
     return out
 
 
@@ -89,6 +97,16 @@ def cyclepoints_table(ns, v, bs, firsts):
     return tab, n_cases
 
 
+def _listcode(l, ns):
+    c = 0
+    for x in l:
+        x = int(x)
+        if not 0 <= x < ns:
+            return -2
+        c = c * (ns + 1) + x + 1
+    return c
+
+
 def _zx_chunk(args):
     ns, v, lo, hi = args
     from bycycle.cyclepoints import find_zerox
@@ -99,15 +117,15 @@ def _zx_chunk(args):
             idx = [j for j in range(ns) if (sm >> j) & 1]
             for pf in (0, 1):
                 if len(idx) < 2:
-                    out.append(0)
+                    out.extend([0, 0, 0])
                     continue
                 odd, even = np.array(idx[0::2], dtype=int), np.array(idx[1::2], dtype=int)
                 pk, tr = (odd, even) if pf else (even, odd)
                 try:
                     r, d = find_zerox(sig, pk, tr)
-                    out.append({'ok': 1, 'rises': [int(x) for x in r], 'decays': [int(x) for x in d]})
+                    out.extend([1, _listcode(r, ns), _listcode(d, ns)])
                 except Exception:
-                    out.append({'ok': 0, 'rises': [], 'decays': []})
+                    out.extend([0, -1, -1])
     return out
 
 
